@@ -249,10 +249,21 @@ func srefAlphabet(level int) []dbx.Txn {
 	add("R r1.wset+=a2 ; select N1 ; R r1.wset-=a1", opMutate("R", uR[0], "wset", "insert", uset(n1[1])), rm.Op{Op: "select", Table: "N1"}, opMutate("R", uR[0], "wset", "delete", uset(n1[0])))
 	add("R r1.smap insert k2:a2 ; wait ; cnt:=8", opMutate("R", uR[0], "smap", "insert", rm.MapOf(rm.S("k2"), rm.U(n1[1]))),
 		rm.Op{Op: "wait", Table: "R", Where: whereUUID(uR[0]), Until: "!=", Columns: []string{"name"}, Rows: []rm.Row{{"name": str("no such name")}}}, opUpdate("R", uR[0], rm.Row{"cnt": rm.SetOf(rm.I(8))}))
+	// rows of two tables under the same UUID (an explicit UUID is the client's choice): what happens to one must not touch the other
+	add("ins PR twin (uuid of R r1)", opInsert("PR", uR[0], rm.Row{"name": str("twin")}))
+	add("del R r1 ; select PR ; PR twin.name:=kept", opDelete("R", uR[0]), rm.Op{Op: "select", Table: "PR"}, opUpdate("PR", uR[0], rm.Row{"name": str("kept")}))
+	add("del PR twin ; select R ; R r1.cnt:=7", opDelete("PR", uR[0]), rm.Op{Op: "select", Table: "R", Columns: []string{"name", "cnt"}}, opUpdate("R", uR[0], rm.Row{"cnt": rm.SetOf(rm.I(7))}))
 	// unique values exchanged between two committed rows (every intermediate step duplicates a value, the final state does not)
 	add("ins PR p1,p2", opInsert("PR", uPR[0], rm.Row{"name": str("peer")}), opInsert("PR", uPR2, rm.Row{"name": str("peer2")}))
 	add("swap PR p1.name<->p2.name", opUpdate("PR", uPR[0], rm.Row{"name": str("peer2")}), opUpdate("PR", uPR2, rm.Row{"name": str("peer")}))
 	add("PR p2.name:=peer after p1.name:=free", opUpdate("PR", uPR[0], rm.Row{"name": str("free")}), opUpdate("PR", uPR2, rm.Row{"name": str("peer")}))
+	// ---- from here on: transactions added while the checks were strengthened against seeded changes (dbx.Txn.Late)
+	first := len(a)
+	defer func() {
+		for i := first; i < len(a); i++ {
+			a[i].Late = true
+		}
+	}()
 	// mutations naming several elements, of which the column holds some, all or none (depends on the state they meet)
 	add("R r1.sset-={a1,a2}", opMutate("R", uR[0], "sset", "delete", uset(n1[0], n1[1])))
 	add("R r1.wset-={a1,a2}", opMutate("R", uR[0], "wset", "delete", uset(n1[0], n1[1])))
